@@ -230,7 +230,7 @@ def run(cx, out):
     # arrays, in-place entry points, derived decoders), and every Input implementation fails a read it cannot fill
     # completely without pretending success (C08 R08.4)
     from . import shared
-    shared.premises(cx, out, {'c02': {'R02.1', 'R02.2', 'R02.5', 'K1-K2', 'K3', 'K4-K5'}, 'c05': {'R05.2', 'R05.5'}, 'c08': {'R08.4'},
+    shared.premises(cx, out, {'c02': {'R02.1', 'R02.2', 'R02.5', 'K1-K2', 'K3', 'K4-K5'}, 'c05': {'R05.2', 'R05.5'}, 'c08': {'R08.3', 'R08.4'},
                               # decode_all_with_depth_limit == decode_all (for a sufficient limit) presupposes balanced depth
                               # accounting: siblings must not accumulate depth, one container costs one level (C11)
                               'c11': {'R11.1', 'R11.2', 'R11.3'}})
